@@ -131,7 +131,7 @@ Proof.
   intros e Q. unfold fields_ok. apply forallb_forall. intros u Hu.
   destruct (all_ufields_ok e u Q Hu) as [W _]. destruct (ufield_wf_parts u W) as [_ [Wi W3]].
   unfold ufield_ok. rewrite W3. cbn [negb andb]. unfold inline_wf in Wi.
-  destruct (uf_kind u); try reflexivity; apply andb_true_iff in Wi; destruct Wi as [Wi _]; now apply sfields_ok.
+  destruct (uf_kind u); try reflexivity; try discriminate; apply andb_true_iff in Wi; destruct Wi as [Wi _]; now apply sfields_ok.
 Qed.
 
 (* what a schema of the block defines *)
@@ -185,15 +185,16 @@ Lemma ref_ok_resolves : forall e fl u, ref_ok e u = true ->
   resolves (defined (expand_with e fl)) (of_ufield u) = true.
 Proof.
   intros e fl [n k r o] H. unfold ref_ok in H. cbn [uf_kind] in H. unfold resolves, field_resolves, of_ufield. cbn [uf_kind].
-  destruct k as [pt j|m|m|m|p f t|tn j|i|i|sfs|sfs|os];
-    cbn [f_type f_inline ref_resolves il_fields forallb andb]; rewrite ?andb_true_r; try reflexivity.
+  destruct k as [pt j|m|m|m|p f t|tn j|i|i|sfs|sfs|os|tk tfs];
+    cbn [f_type f_inline ref_resolves il_fields forallb andb]; rewrite ?inline_type_resolves; rewrite ?andb_true_r; try reflexivity.
   - apply resolves_local. now apply names_object_defined.
   - apply resolves_local. now apply names_oneof_defined.
   - apply resolves_local. now apply names_enum_defined.
   - now apply item_resolves.
   - now apply item_resolves.
-  - now apply sfields_resolve.
-  - now apply sfields_resolve.
+  - cbn [andb]. now apply sfields_resolve.
+  - cbn [andb]. now apply sfields_resolve.
+  - discriminate.
 Qed.
 
 Lemma closed_holds : forall e fl, quantified e -> closed (expand_with e fl) = true.
@@ -382,15 +383,26 @@ Lemma of_ufield_facts : forall u,
   f_json (of_ufield u) = uf_name u /\ f_optional (of_ufield u) = sp_presence u
   /\ is_map_field (of_ufield u) = is_map_kind u.
 Proof.
-  intros [n k r o]. unfold of_ufield, is_map_kind, is_map_field, sp_presence, is_repeated_kind. cbn [uf_kind uf_optional].
-  destruct k as [pt j|m|m|m|p f t|tn j|i|i|sfs|sfs|os]; cbn; repeat split;
-    try reflexivity; try (now rewrite andb_true_r); try (now rewrite andb_false_r); destruct i; reflexivity.
+  intros [n k r o d kf c].
+  unfold of_ufield, is_map_kind, is_map_field, sp_presence, is_repeated_kind, is_inline_kind, inline_type.
+  cbn [uf_kind uf_optional uf_name uf_container uf_desc uf_keyfmt].
+  destruct k as [pt j|m|m|m|p f t|tn j|i|i|sfs|sfs|os|tk tfs]; cbn [f_json f_optional f_type andb negb];
+    repeat split; try reflexivity; try (now rewrite andb_true_r); try (now rewrite andb_false_r);
+    try (destruct i; reflexivity);
+    try (now rewrite negb_involutive);
+    try (destruct (c =? 2); reflexivity).
 Qed.
+
+Lemma inline_of_none : forall f, f_inline f = None -> inline_of f = None.
+Proof. intros f H. unfold inline_of. now rewrite H. Qed.
+Lemma inline_of_inline_type : forall j c n k r q fl p te fi fo o il d kf,
+  inline_of (mkF13 j (inline_type c n k) r q fl p te fi fo o (Some il) d kf) = Some (n, k, il).
+Proof. intros. unfold inline_of, inline_type. cbn [f_inline f_type]. destruct (c =? 2); reflexivity. Qed.
 
 Lemma no_inline_names : forall fs, Forall (fun f => f_inline f = None) fs -> inline_names fs = [] /\ inline_scopes fs = [].
 Proof.
   induction 1 as [|f l H _ [IH1 IH2]]; [split; reflexivity|]. unfold inline_names, inline_scopes in *. cbn [flat_map].
-  rewrite H, IH1, IH2. split; reflexivity.
+  rewrite (inline_of_none f H), H, IH1, IH2. split; reflexivity.
 Qed.
 
 (* a message without nested messages and without inline types has one scope *)
@@ -458,9 +470,10 @@ Qed.
 
 Lemma user_inline_names : forall fs, inline_names (map of_ufield fs) = sp_inline_names fs.
 Proof.
-  induction fs as [|[n k r o] fs IH]; [reflexivity|]. unfold inline_names, sp_inline_names in *. cbn [map flat_map].
-  rewrite IH. f_equal. unfold of_ufield. cbn [uf_kind uf_name].
-  destruct k as [pt j|m|m|m|p f t|tn j|i|i|sfs|sfs|os]; cbn [f_inline f_type il_kind il_options N.eqb Pos.eqb]; try reflexivity.
+  induction fs as [|[n k r o d kf c] fs IH]; [reflexivity|]. unfold inline_names, sp_inline_names in *. cbn [map flat_map].
+  rewrite IH. f_equal. unfold of_ufield. cbn [uf_kind uf_name uf_container].
+  destruct k as [pt j|m|m|m|p f t|tn j|i|i|sfs|sfs|os|tk tfs]; rewrite ?inline_of_inline_type;
+    try (rewrite inline_of_none by reflexivity); cbn [il_kind il_options N.eqb Pos.eqb]; try reflexivity.
   now rewrite inline_enum_values_eq.
 Qed.
 
@@ -486,7 +499,7 @@ Proof.
   apply Forall_forall. intros sc Hsc. apply in_flat_map in Hsc. destruct Hsc as [u [Hu Hsc]].
   rewrite forallb_forall in Hw. destruct (ufield_wf_parts u (Hw u Hu)) as [_ [Wi _]]. specialize (Ht u Hu).
   destruct u as [n k r o]. unfold of_ufield in Hsc. unfold inline_wf in Wi. cbn [uf_kind] in *.
-  destruct k as [pt j|m|m|m|p f t|tn j|i|i|sfs|sfs|os]; cbn [f_inline il_kind il_fields N.eqb Pos.eqb] in Hsc; try contradiction.
+  destruct k as [pt j|m|m|m|p f t|tn j|i|i|sfs|sfs|os|tk tfs]; cbn [f_inline il_kind il_fields il_tree N.eqb Pos.eqb] in Hsc; try contradiction; try discriminate.
   - (* inline object *)
     destruct Hsc as [<-|[]]. apply andb_true_iff in Wi. destruct Wi as [_ Wn]. apply nodup_bytes_NoDup in Wn.
     unfold sp_inline_scope in Wn. rewrite map_map. exact Wn.
@@ -540,10 +553,10 @@ Qed.
 Lemma inline_names_not_lower : forall fs x, forallb ufield_wf fs = true -> In x (sp_inline_names fs) -> lower_start x = false.
 Proof.
   intros fs x Hw Hx. unfold sp_inline_names in Hx. apply in_flat_map in Hx. destruct Hx as [u [Hu Hx]].
-  rewrite forallb_forall in Hw. destruct (ufield_wf_parts u (Hw u Hu)) as [Hn _].
+  rewrite forallb_forall in Hw. destruct (ufield_wf_parts u (Hw u Hu)) as [Hn [Wi _]]. unfold inline_wf in Wi.
   destruct (camel_cap_start _ Hn) as [c [t [E Hc]]].
   assert (Hcamel : lower_start (to_camel (uf_name u)) = false) by (rewrite E; cbn; now apply cap_not_low).
-  destruct (uf_kind u) as [pt j|m|m|m|p f te|tn j|i|i|sfs|sfs|os]; try contradiction.
+  destruct (uf_kind u) as [pt j|m|m|m|p f te|tn j|i|i|sfs|sfs|os|tk tfs]; try contradiction; try discriminate.
   - destruct Hx as [<-|[]]. exact Hcamel.
   - destruct Hx as [<-|[]]. exact Hcamel.
   - destruct Hx as [<-|Hx]; [exact Hcamel|].
@@ -1227,7 +1240,24 @@ Proof.
   apply (inner_schemas e _ Q Hr). auto.
 Qed.
 
-Theorem file_acceptance : forall es, file_quantifier es = true -> exists cs, compile_file es = Ok cs.
+Lemma convert_all_accepts_parts : forall es, Forall quantified es ->
+  exists l, Forall2 (fun e cs => (exists fl, cs = expand_with e fl) /\ convert e = Ok cs) es l
+            /\ convert_all es = Ok (concat l).
+Proof.
+  induction 1 as [|e es Q _ [l [HF Hc]]].
+  - exists []. split; [constructor|reflexivity].
+  - destruct (convert_accepts e Q) as [fl He]. exists (expand_with e fl :: l). split.
+    + constructor; [split; [now exists fl|exact He]|exact HF].
+    + cbn [convert_all concat]. now rewrite He, Hc.
+Qed.
+
+Lemma Forall2_weaken : forall {A B} (P Q : A -> B -> Prop) l1 l2,
+  (forall a b, P a b -> Q a b) -> Forall2 P l1 l2 -> Forall2 Q l1 l2.
+Proof. intros A B P Q l1 l2 H HF. induction HF; constructor; auto. Qed.
+
+(* a file of several declarations compiles to the concatenation of what each declaration converts to *)
+Theorem file_acceptance_parts : forall es, file_quantifier es = true ->
+  exists l, Forall2 (fun e cs => convert e = Ok cs) es l /\ compile_file es = Ok (concat l).
 Proof.
   intros es H. unfold file_quantifier in H.
   repeat match type of H with
@@ -1237,7 +1267,10 @@ Proof.
   { apply Forall_forall. intros e He. rewrite forallb_forall in H. specialize (H e He).
     apply andb_true_iff in H. destruct H as [H1 H2]. split; [now apply quantified_of|exact H2]. }
   assert (HQ : Forall quantified es) by (eapply Forall_impl; [|exact Hall]; intros e [Q _]; exact Q).
-  destruct (convert_all_accepts es HQ) as [l [HF Hc]]. exists (concat l).
+  destruct (convert_all_accepts_parts es HQ) as [l [HF2 Hc]]. exists l.
+  split; [eapply Forall2_weaken; [|exact HF2]; intros a b [_ Hab]; exact Hab|].
+  assert (HF : Forall2 (fun e cs => exists fl, cs = expand_with e fl) es l)
+    by (eapply Forall2_weaken; [|exact HF2]; intros a b [Hab _]; exact Hab).
   unfold compile_file.
   assert (Hst : existsb (fun e => is_nil (e_status e)) es = false).
   { destruct (existsb (fun e => is_nil (e_status e)) es) eqn:E; [|reflexivity]. apply existsb_exists in E.
@@ -1254,3 +1287,26 @@ Proof.
     - pose proof (inner_scopes_concat es l HF Hall) as A. unfold all_nodup in A. rewrite Forall_forall in A. now apply A. }
   now rewrite Hl.
 Qed.
+
+Theorem file_acceptance : forall es, file_quantifier es = true -> exists cs, compile_file es = Ok cs.
+Proof. intros es H. destruct (file_acceptance_parts es H) as [l [_ Hc]]. now exists (concat l). Qed.
+
+(* THE FULL STATEMENT FOR FILES: every declaration of an admissible file yields its own components - the
+   file compiles to their concatenation, in declaration order - and each part satisfies every clause of
+   the specification for its declaration *)
+Theorem file_full_modulo_reserved : forall es, file_quantifier es = true ->
+  exists l, compile_file es = Ok (concat l)
+            /\ Forall2 (fun e cs => compile e = Ok cs /\ C17_spec e cs) es l.
+Proof.
+  intros es H. destruct (file_acceptance_parts es H) as [l [HF Hc]]. exists l. split; [exact Hc|].
+  assert (Hall : forall e, In e es -> in_quantifier e = true /\ reserved_free e = true).
+  { intros e He. unfold file_quantifier in H. apply andb_true_iff in H. destruct H as [H _].
+    apply andb_true_iff in H. destruct H as [H _]. apply andb_true_iff in H. destruct H as [H _].
+    rewrite forallb_forall in H. specialize (H e He). now apply andb_true_iff in H. }
+  clear H Hc. induction HF as [|e cs es l Hcv _ IH]; [constructor|]. constructor.
+  - destruct (Hall e (or_introl eq_refl)) as [Hq Hr].
+    destruct (full_modulo_reserved e Hq Hr) as [cs' [Hc' Hs']].
+    destruct (compile_inv e cs' Hc') as [_ [Hcv' _]]. rewrite Hcv in Hcv'. inversion Hcv'; subst cs'. split; assumption.
+  - apply IH. intros e' He'. apply Hall. now right.
+Qed.
+
